@@ -376,6 +376,14 @@ def check_compare(dim):
     one = MultiVector({0: 1}, space)
     pool = [MultiVector({}, space), one, one - one, one * 0, MultiVector(0, space), MultiVector({0: 0}, space)]
     if dim >= 1:
+        # coefficient-wise equal multivectors whose terms were inserted in a different order
+        pool += [MultiVector({0: 1, 1: 2}, space), MultiVector({1: 2, 0: 1}, space), (e[0] + one) * 2, 2 * one + 2 * e[0],
+                 (one + e[0]) * (one + 2 * e[0]), one + e[0] * 3 + (e[0] * e[0]) * 2 if True else None]
+    if dim >= 2:
+        a_, b_, c_ = e[0] + 2 * e[1], one + e[1], e[0] + one
+        pool += [(a_ + b_) * c_, a_ * c_ + b_ * c_, b_ * c_ + a_ * c_, c_ * (a_ + b_), c_ * b_ + c_ * a_,
+                 MultiVector({3: 1, 1: 1, 2: 1, 0: 1}, space), MultiVector({0: 1, 1: 1, 2: 1, 3: 1}, space)]
+    if dim >= 1:
         pool += [e[0], e[0] - e[0], 2 * e[0], e[0] + e[0], (e[0] + one) * (e[0] - one) if True else None, e[0] ^ e[0]]
     if dim >= 2:
         u = e[0] + e[1]
